@@ -160,8 +160,9 @@ def _takes_one_more_token(name, tokens):
     return tokens[-1] == '=' and name in ('def', 'file', 'env', 'timeout', 'stdin')
 
 
+_SYMBOL_NAME_RE = re.compile(r'^[A-Z][A-Z0-9_]+$')
 _CMP = {'==', '!=', '<', '<=', '>', '>='}
-_PLAIN_WORD_RE = re.compile(r'^[A-Za-z0-9_.-]+$')
+_PLAIN_WORD_RE = re.compile(r'^([A-Za-z0-9_.-]+|@\[[A-Za-z0-9_]+\]@)$')  # (or a symbol reference)
 
 
 def _expression_kind(name, tokens):
@@ -192,6 +193,9 @@ def is_modelled_expression(kind, toks):
 
     def prim(k):
         t = peek()
+        if t is not None and _SYMBOL_NAME_RE.match(t):
+            take()  # SYMBOL-NAME: a reference to a matcher defined elsewhere (the generators write them in capitals)
+            return True
         if k == 'int':
             if t in _CMP:
                 take()
@@ -292,6 +296,7 @@ class Reader:
         self.error = None
         self.later_errors = []
         self.ambiguous = None
+        self.ambiguous_at = None  # [line of each including directive ..., first line of the element] (reading order)
         self.max_depth = 0
         self.n_inclusions = 0
         self.headers_seen = []  # (file, phase) in reading order
@@ -308,6 +313,7 @@ class Reader:
             self._read_file(root, DEFAULT_PHASE, [], [posixpath.normpath(root)])
         except Ambiguous as ex:
             self.ambiguous = str(ex)
+            self.ambiguous_at = ex.place
             self.labels.add('no-single-reading:' + str(ex))
         except _BudgetExceeded:
             pass  # (only while collecting later errors)
@@ -391,8 +397,10 @@ class Reader:
                 if ex.kind == 'syntax':
                     phase = None  # the rest of the block has no certain reading: skip to the next header line
                 i += 1
-            except Ambiguous:
+            except Ambiguous as ex:
                 if not self._recovering:
+                    if getattr(ex, 'place', None) is None:
+                        ex.place = [c[1] for c in chain] + [i + 1]
                     raise
                 phase = None
                 i += 1
